@@ -133,8 +133,9 @@ func (g *Gossip) ack(ctx context.Context, ack Message) (ack2 Message) {
 	ack2 = Message{Nodes: make(node.Group)}
 	for _, dig := range ack.Digests {
 		// If we have the node, and our version is newer, return it to the
-		// peer.
-		if n, ok := snap.Nodes[dig.Key]; ok && n.Heartbeat.OlderThan(dig.Heartbeat) {
+		// peer. A peer that does not know the node at all reports a zero
+		// heartbeat, so a node whose heartbeat is still zero must be sent too.
+		if n, ok := snap.Nodes[dig.Key]; ok && !n.Heartbeat.YoungerThan(dig.Heartbeat) {
 			ack2.Nodes[dig.Key] = n
 		}
 	}
